@@ -452,7 +452,7 @@ def h_tetrahedral_movers(eng, resname, centre):
     eng.check(changed == want, "rotates-the-other-substituents-of-atom2", note=f"{resname}: rotate_tetrahedral({atom1.name}, {atom2.name}) with bond list {[a.name for a in partners]} moved {sorted(changed)}, the substituents other than the axis partner are {sorted(want)}")
 
 
-def h_dihedral_record(eng, resname, anglenum, recorded=None):
+def h_dihedral_record(eng, resname, anglenum, recorded=None, warm=False):
     """after Debump.set_dihedral_angle the recorded torsion (residue.dihedrals[n], from which the NEXT call
     computes its rotation) is the torsion of the coordinates as they are NOW.  utilities.dihedral is an
     uninterpreted function of the four positions it is handed; the rotation result is arbitrary."""
@@ -460,10 +460,17 @@ def h_dihedral_record(eng, resname, anglenum, recorded=None):
 
     from . import c04
 
-    bm, res = c04._setup(resname, "internal", False)
+    # warm: the Debump object already served on the heavy-atom structure (scored / turned every torsion, also those whose
+    # fourth atom is a hydrogen added later), as in main: debump, add hydrogens, debump / optimise
+    c04.WARM[0] = bool(warm)
+    try:
+        bm, res = c04._setup(resname, "internal", False)
+        deb = c04._new_debump(bm)
+    finally:
+        c04.WARM[0] = False
+        c04._WARMED.clear()
     names = res.reference.dihedrals[anglenum].split()
     moved = res.get_moveable_names(names[2])
-    deb = debump.Debump(bm)
 
     class NoCells:
         def add_cell(self, a):
@@ -503,6 +510,9 @@ def h_dihedral_record(eng, resname, anglenum, recorded=None):
         if eng.symbolic:
             fourth = res.get_atom(names[3])
             eng.check(And(*[core.same(v, w) for v, w in zip((fourth.x, fourth.y, fourth.z), fresh[names[3]])]) if names[3] in fresh else True, "requested-rotation-is-carried-out", note=f"{resname} chi{anglenum + 1}: set_dihedral_angle returned without moving the atoms although the target differs from the recorded torsion {res.dihedrals[anglenum]!r}")
+        elif names[3] in fresh:
+            fourth = res.get_atom(names[3])
+            eng.check(all(abs(float(v) - float(w)) < 1e-6 for v, w in zip((fourth.x, fourth.y, fourth.z), fresh[names[3]])), "requested-rotation-is-carried-out", note=f"{resname} chi{anglenum + 1}: the torsion's fourth atom {names[3]} is not where the rotation put it (set_dihedral_angle turned another set of atoms)")
         recorded = res.dihedrals[anglenum]
         if eng.symbolic:
             want = dihedral(*now)  # positions are compared as simplified terms ((new - pivot) + pivot = new)
@@ -531,6 +541,8 @@ def obligations(tier):
         obs.append(Obligation(f"dihedral-record-{resname}-chi{k + 1}", h_dihedral_record, dict(resname=resname, anglenum=k), group="dihedral-record", time_cap=600))
     for rec in (0.0, -0.0, 180.0):
         obs.append(Obligation(f"dihedral-record-LYS-chi2-from-{rec!r}", h_dihedral_record, dict(resname="LYS", anglenum=1, recorded=rec), group="dihedral-record", time_cap=600))
+    for resname, k in (("SER", 1), ("LYS", 4), ("TYR", 2)) if tier == "quick" else (("SER", 1), ("LYS", 4), ("TYR", 2), ("THR", 1), ("LYS", 1), ("MET", 2)):
+        obs.append(Obligation(f"dihedral-record-{resname}-chi{k + 1}-reused-debump-object", h_dihedral_record, dict(resname=resname, anglenum=k, warm=True), group="dihedral-record", time_cap=600))
     obs.append(Obligation("placement-exact-turns", table_exact_turns, {}, kind="table", group="placement"))
     obs.append(Obligation("jacobi-sorted-nonzero", h_jacobi_sorted, dict(zero_allowed=False), group="jacobi", time_cap=1200))
     obs.append(Obligation("jacobi-sorted-zero-allowed", h_jacobi_sorted, dict(zero_allowed=True), group="jacobi", time_cap=1200))
